@@ -355,8 +355,6 @@ def check_basis(case, ctx):
             for j in range(n):
                 g = helpers.basis_function_one(p, U, j, u)
                 e = float(exb.get(j, 0))
-                if at_end and U[n] != U[-1]:
-                    pass  # unclamped end: half-open evaluation from the right is the same value by continuity
                 if abs(g - e) > 1e-10:
                     ctx.fail('basis/basis_function_one', 'basis_function_one(p=%d, i=%d, u=%r)=%r, Cox-de Boor gives %r'
                              % (p, j, u, g, e), kv=U)
@@ -381,9 +379,9 @@ def check_basis(case, ctx):
             exd = ref.basis_ders(p, Uf, span, F(u), order)
             interior_knot = cnt.get(u, 0) > 0 and not at_end and u != U[p]
             # single-function derivative variant (A2.5)
-            # at the end of a clamped knot vector the last span is closed (as in the span search, basis_function and basis_function_one);
-            # at the end of an unclamped domain the half-open rule selects the next span, whose polynomials differ in the higher derivatives
-            for j in range(n if (not at_end or u == U[-1]) else 0):
+            # at the end of the domain the last span is closed (as in the span search, basis_function and basis_function_ders), whether
+            # the knot vector is clamped or not: the one-function variant must describe the same (left) polynomial piece there
+            for j in range(n):
                 g = helpers.basis_function_ders_one(p, U, j, u, order)
                 e = exd.get(j, [F(0)] * (order + 1))
                 tol = [1e-9 * max(1.0, max(abs(float(exd[i][k])) for i in exd)) for k in range(order + 1)]
